@@ -21,6 +21,7 @@ import (
 	"encoding/json"
 	"errors"
 	"fmt"
+	"math"
 	"net/http"
 	"time"
 
@@ -67,6 +68,10 @@ type database interface {
 var databaseObj database
 
 var invalidDatabaseProvider = "database provider is not configured in server.yaml"
+
+// The cron job of an alert runs every EvalInterval*60 seconds and the scheduler keeps that interval
+// as a time.Duration: a longer interval would wrap around to a short or negative one.
+const maxEvalIntervalMinutes = uint64(math.MaxInt64 / int64(time.Minute))
 
 type TestContactPointRequest struct {
 	Type     string                 `json:"type"`
@@ -161,6 +166,11 @@ func ProcessCreateAlertRequest(ctx *fasthttp.RequestCtx, org_id int64) {
 
 	if alertToBeCreated.EvalInterval == 0 {
 		utils.SendError(ctx, "EvalInterval should be greater than zero", fmt.Sprintf("EvalWindow: %v, EvalInterval:%v", alertToBeCreated.EvalWindow, alertToBeCreated.EvalInterval), nil)
+		return
+	}
+
+	if alertToBeCreated.EvalInterval > maxEvalIntervalMinutes {
+		utils.SendError(ctx, fmt.Sprintf("EvalInterval should not be greater than %v minutes", uint64(maxEvalIntervalMinutes)), fmt.Sprintf("EvalWindow: %v, EvalInterval:%v", alertToBeCreated.EvalWindow, alertToBeCreated.EvalInterval), nil)
 		return
 	}
 
@@ -431,6 +441,11 @@ func ProcessUpdateAlertRequest(ctx *fasthttp.RequestCtx) {
 
 	if alertToBeUpdated.EvalInterval == 0 {
 		utils.SendError(ctx, "EvalInterval should be greater than zero", fmt.Sprintf("EvalWindow: %v, EvalInterval:%v", alertToBeUpdated.EvalWindow, alertToBeUpdated.EvalInterval), nil)
+		return
+	}
+
+	if alertToBeUpdated.EvalInterval > maxEvalIntervalMinutes {
+		utils.SendError(ctx, fmt.Sprintf("EvalInterval should not be greater than %v minutes", uint64(maxEvalIntervalMinutes)), fmt.Sprintf("EvalWindow: %v, EvalInterval:%v", alertToBeUpdated.EvalWindow, alertToBeUpdated.EvalInterval), nil)
 		return
 	}
 
